@@ -51,6 +51,13 @@ def automata_corpus():
                            [("p", "€", "q", w[0]), ("p", "€", "q", w[1]), ("p", "a", "q", w[2])])
     c["two_init_two_final"] = A(frozenset("pqr"), {"p": w[0], "q": w[1]}, {"r": w[2], "q": w[3]},
                                 [("p", "a", "r", w[4]), ("q", "ü", "r", w[5]), ("q", "→", "q", w[6])])
+    # continuation-byte values that recur under different prefixes (a chain state must depend on the whole prefix, not on the byte):
+    # EURO = E2 82 AC and KATAKANA A = E3 82 A2 leave the same state; ORANGE CIRCLE = F0 9F 9F A0 repeats its 2nd byte
+    # (added after the independently seeded change C17-1)
+    c["cont_byte_recurs"] = A(frozenset("pqr"), {"p": F(1)}, {"q": w[0], "r": w[1]}, [("p", "€", "q", w[2]), ("p", "ア", "r", w[3])])
+    c["repeated_cont_byte4"] = A(frozenset("pq"), {"p": F(1)}, {"q": w[0]}, [("p", "🟠", "q", w[1]), ("q", "a", "p", w[2])])
+    # the same lead byte on arcs leaving DIFFERENT states (a chain state must also depend on the source state): é = C3 A9, è = C3 A8
+    c["same_lead_other_state"] = A(frozenset("pqr"), {"p": F(1)}, {"r": w[0]}, [("p", "é", "q", w[1]), ("q", "è", "r", w[2])])
     c["only_ascii"] = A(frozenset("pq"), {"p": F(1)}, {"q": w[0]}, [("p", "a", "q", w[1]), ("q", "b", "p", w[2])])
     c["only_4byte"] = A(frozenset("pq"), {"p": F(1)}, {"q": w[0]}, [("p", "😀", "q", w[1]), ("q", "😁", "p", w[2])])
     c["empty_lang"] = A(frozenset("pq"), {"p": F(1)}, {}, [("p", "é", "q", w[0])])
@@ -508,6 +515,11 @@ def lark_corpus():
     c = {}
     c["two_multibyte_terminals"] = ('start: A B\nA: "é"\nB: "ü"\n', "éüx", "éüx")           # DESIGN observation 11
     c["three_multibyte_terminals"] = ('start: A B C | C\nA: "€"\nB: "→"\nC: "😀"\n', "€→😀a", "€→😀a")
+    # one terminal with two multi-byte characters sharing a lead byte on arcs from different states (seeded change C19-1)
+    c["same_lead_byte_in_one_terminal"] = ('start: X\nX: /éè/\n', "éèa", "éèa")
+    # terminal names that differ by a trailing digit run equal to a state number, used in different contexts (seeded change C19-2)
+    c["terminal_names_T1_T11"] = ('start: T1 "p" | "q" T11\nT1: /ab/\nT11: /cd/\n', "abcdpq", "abcdpq")
+    c["terminal_names_T1_T10_T12"] = ('start: T1 | "x" T10 | "y" T12\nT1: /ab?/\nT10: /ba/\nT12: /bb/\n', "abxy", "abxy")
     c["multibyte_and_ascii"] = ('start: A B | B A A\nA: "é"\nB: "b"\n', "ébx", "ébx")
     c["one_multibyte_terminal"] = ('start: A+\nA: "é"\n', "éa", "éa")
     c["multibyte_regex_class"] = ('start: A B?\nA: /[a€]+/\nB: "€a"\n', "a€x", "a€x")
@@ -596,7 +608,7 @@ def random_lark_grammar(rng):
 def selfcheck():
     """Dialect alignment of the C18/C19 oracle: on every character set used, Python's case-insensitive matching of a
     single character coincides with interegular's definition {p.lower(), p.upper()} restricted to single characters;
-    render() produces patterns Python accepts; (?a:..) wrapping only changes the reading of class escapes."""
+    render() produces patterns Python accepts; the explicit ASCII classes written for `re` read like the ASCII class escapes."""
     for name, cs in CHARSETS.items():
         for p in cs:
             for ch in cs:
